@@ -288,6 +288,13 @@ def gen(rng, i, tier):
         b = Fraction(rng.choice([1, 2, 3, 5]))
     if b <= 0:
         b = Fraction(1)
+    edge = rng.randrange(40) if not near else 99
+    if edge == 0:
+        b = Fraction(0)                                  # zero budget: only free projects can be added
+    elif edge == 1 and pos:
+        b = min(pos) * rng.choice([Fraction(1, 2), Fraction(2, 3)])     # every priced project is unaffordable
+    elif edge in (2, 3) and pos:
+        b = rng.choice(pos)                              # budget exactly equal to one project's cost
     nv = rng.choice([0, 1, 2, 3, 3, 4, 5])
     ballots = []
     if near:
@@ -354,10 +361,16 @@ def gen(rng, i, tier):
         algo = 1        # nobody votes: every feasible subset is optimal (up to 2^n solver calls) -- keep those small
     order = list(range(n))
     rng.shuffle(order)
-    case = {"costs": [pb.qs(c) for c in costs], "budget": pb.qs(b), "kind": kind, "sat": sat, "ballots": ballots,
+    # the FORM in which the initial allocation is handed over (the signature allows any iterable of projects; one-shot
+    # iterables must not be consumed before they are copied) and whether inner_algo is given or left to its default
+    forms = ["list", "list", "tuple", "set", "gen", "iter", "map", "balloc"] + ([] if init else ["none", "none"])
+    init_form = rng.choice(forms)
+    algo_arg = "default" if algo in (0, 2) and rng.random() < 0.3 else "explicit"
+    case = {"init_form": init_form, "algo_arg": algo_arg}
+    case.update({"costs": [pb.qs(c) for c in costs], "budget": pb.qs(b), "kind": kind, "sat": sat, "ballots": ballots,
             "multi": rng.random() < 0.4, "init": init, "algo": algo, "order": order,
             "via": rng.choice(["class", "profile"]) if sat not in SOLVER_SATS else "profile",
-            "solver": algo != 0 or sat in SOLVER_SATS}
+            "solver": algo != 0 or sat in SOLVER_SATS})
     if late is not None:
         case.update(late=late, hmode=hmode, via="profile")
     if near:
@@ -382,11 +395,31 @@ def impl(case):
     algo = case["algo"]
     init = [projs[j] for j in case["init"]]
 
+    def init_arg():
+        form = case.get("init_form", "list")
+        if form == "none" and not init:
+            return None
+        if form == "tuple":
+            return tuple(init)
+        if form == "set":
+            return set(init)
+        if form == "gen":
+            return (p for p in init)
+        if form == "iter":
+            return iter(list(init))
+        if form == "map":
+            return map(lambda p: p, init)
+        if form == "balloc":
+            from pabutools.rules.budgetallocation import BudgetAllocation
+            return BudgetAllocation(init)
+        return list(init)
+
     def call(sat_profile, via):
         kw = {"sat_profile": sat_profile} if via == "profile" else {"sat_class": sat_class}
+        if case.get("algo_arg") != "default" or algo == 1:
+            kw["inner_algo"] = MaxAddUtilWelfareAlgo.PRIMAL_DUAL if algo == 0 else MaxAddUtilWelfareAlgo.ILP_SOLVER
         res = max_additive_utilitarian_welfare(
-            inst, prof, resoluteness=(algo != 2), initial_budget_allocation=list(init),
-            inner_algo=MaxAddUtilWelfareAlgo.PRIMAL_DUAL if algo == 0 else MaxAddUtilWelfareAlgo.ILP_SOLVER, **kw)
+            inst, prof, resoluteness=(algo != 2), initial_budget_allocation=init_arg(), **kw)
         return [pb.ranks(a) for a in res] if algo == 2 else [pb.ranks(res)]
 
     def totals(sat_profile):
@@ -502,7 +535,9 @@ def stats(cases, obs):
          "fractional_scores": 0, "zero_cost_project": 0, "zero_cost_with_supporters": 0,
          "zero_cost_without_supporters": 0, "zero_profit_project": 0, "negative_total_satisfaction": 0,
          "negative_total_positive_cost_undecided": 0, "negative_total_zero_cost_undecided": 0,
-         "negative_total_in_initial_allocation": 0, "all_undecided_totals_negative": 0, "nonempty_init": 0, "multiprofile": 0,
+         "negative_total_in_initial_allocation": 0, "all_undecided_totals_negative": 0, "nonempty_init": 0, "init_form_hist": {}, "nonempty_init_one_shot_iterable": 0,
+         "inner_algo_left_to_default": 0, "via_sat_class": 0, "zero_budget": 0, "all_priced_undecided_unaffordable": 0,
+         "budget_equals_a_project_cost": 0, "single_project": 0, "multiprofile": 0,
          "tied_optima>=2": 0, "greedy_prefix_not_optimal": 0, "budget_is_subset_sum": 0,
          "equal_efficiency_pair": 0, "pd_nothing_to_decide": 0, "history": 0, "history_multiprofile": 0,
          "history_first_answer_no_longer_optimal": 0, "history_first_call_on_empty_profile": 0, "near_tie_large": 0,
@@ -527,6 +562,17 @@ def stats(cases, obs):
         d["all_undecided_totals_negative"] += bool(und) and all(sc[j] < 0 for j in und)
         d["pd_nothing_to_decide"] += c["algo"] == 0 and not any(cs[j] > 0 for j in und)
         d["nonempty_init"] += bool(c["init"])
+        frm = c.get("init_form", "list")
+        d["init_form_hist"][frm] = d["init_form_hist"].get(frm, 0) + 1
+        d["nonempty_init_one_shot_iterable"] += bool(c["init"]) and frm in ("gen", "iter", "map")
+        d["inner_algo_left_to_default"] += c.get("algo_arg") == "default"
+        d["via_sat_class"] += c.get("via") == "class"
+        bq = pb.F(c["budget"])
+        left = bq - sum((cs[j] for j in c["init"]), Fraction(0))
+        d["zero_budget"] += bq == 0
+        d["all_priced_undecided_unaffordable"] += any(cs[j] > 0 for j in und) and all(cs[j] > left for j in und if cs[j] > 0)
+        d["budget_equals_a_project_cost"] += any(x == bq and x > 0 for x in cs)
+        d["single_project"] += len(cs) == 1
         d["multiprofile"] += bool(c["multi"])
         comp = _completions(c, o)
         if c.get("late") is not None and comp:
@@ -648,6 +694,15 @@ def shrink(case):
     if case["multi"]:
         c = dict(case)
         c["multi"] = False
+        yield c
+    if case.get("init_form", "list") not in ("list", "gen"):
+        for frm in ("list", "gen"):
+            c = dict(case)
+            c["init_form"] = frm
+            yield c
+    if case.get("algo_arg") == "default":
+        c = dict(case)
+        c["algo_arg"] = "explicit"
         yield c
     if case["order"] != sorted(case["order"]):
         c = dict(case)
